@@ -27,7 +27,11 @@ Case line (kind `a10`), fields separated by `|`:
            code c<v> or fa<k>; referred to as member k<j>
   class    <base index or ->:<name>=<member>[~k][/hK],…  with member
            c<v> Any(atom) · al<a.b> Any([a,b]) · ad<a.b> Any({..}) · L/D/S<a.b> List/Dict/Set(Int) with default ·
-           fa<k> Any(factory=F[k]) · pa<k> the same with a post_setattr hook (see P) · T<k> Tuple(List(Int), Int) · U<k> Union(List(Int), None) · o self() ·
+           fa<k> Any(factory=F[k]) · pa<k> the same with a post_setattr hook (see P; the hook first READS the
+           attribute it is called for, as the hook of a mapped trait does through its shadow) ·
+           tl / td the legacy declarations Trait(list) / Trait(dict) (a bare Python type: the default is a per-object
+           copy of [] / {}) · bl / bd (only as the member of an `at` op in `#` cases) the bare type itself:
+           obj.add_trait(name, list) · T<k> Tuple(List(Int), Int) · U<k> Union(List(Int), None) · o self() ·
            n<form><cls><a.b> a trait whose default KIND is inferred from the default VALUE, an instance of a list /
            dict (sub)class: form t = user-defined TraitType with `default_value`, r = Trait(default, list|dict),
            e = Either(Dict(Int, Int) | List(Int), Str, default=…); cls l list · h user list subclass · m dict ·
@@ -182,6 +186,13 @@ def corpus():
         mk_case(["f4.5"], ["-:0=pa0,1=c3"], ["o", "o"],
                 ["new 0", "new 0", "ro 0 0 1", "get 0 0", "get 0 0", "mut 0 0 9", "get 1 0", "get 0 0"], P=[0]),
         mk_case(["e6"], ["-:0=pa0"], ["o"], ["new 0", "new 0", "get 0 0", "get 1 0", "get 1 0", "get 0 0"], P=[1]),
+        # first operation = assignment to a never-read attribute with a post_setattr hook and a handler
+        mk_case(["f4.5"], ["-:0=pa0"], ["o", "o"], ["new 0", "new 0", "rd 0 0 0", "set 0 0 5", "get 0 0", "set 1 0 6"]),
+        # legacy declarations by bare type: per-object copies
+        mk_case([], ["-:0=tl,1=td"], ["o"], ["new 0", "new 0", "get 0 0", "mut 0 0 9", "get 1 0", "mut 0 1 10", "get 1 1",
+                                             "new 0", "get 2 0", "get 2 1"]),
+        mk_case([], ["-:0=c3,1=c3"], ["o"], ["new 0", "new 0", "at 0 1 bl", "at 1 1 bl", "mut 0 1 9", "get 1 1", "at 0 0 bd",
+                                             "at 1 0 bd", "mut 1 0 10", "get 0 0"], impl_only=True),
         # one reusable CTrait object bound to two names and used by classes defined before and after; x0 has a
         # _name_default and no static handler: the siblings keep the declared default
         mk_case(["e6"], ["-:0=k0,1=k0", "-:0=k0~0,1=k0", "-:0=k0,1=k0"], ["o"],
@@ -593,6 +604,34 @@ def post_case(rng):
     return mk_case(F, ["-:0=pa0,1=c3"], ["o", "o"], ops + body, P=P)
 
 
+def legacy_case(rng):
+    """Legacy declarations by bare Python type — `x = Trait(list)`, `Trait(dict)`, `obj.add_trait(name, list)` —: the
+    default is a copy per object; mutate it on one instance, look at the others and at instances created later."""
+    impl_only = rng.random() < 0.4
+    k0, k1 = rng.choice(["tl", "td"]), rng.choice(["tl", "td", "c3"])
+    ops = ["new 0", "new 0"]
+    if impl_only:
+        ops += ["at 0 1 %s" % rng.choice(["bl", "bd"]), "at 1 1 %s" % rng.choice(["bl", "bd"])]
+    body = ["get 0 0", "mut 0 0 9", "get 1 0", "mut 1 0 10", "get 0 1", "mut 0 1 11", "get 1 1", "new 0", "get 2 0",
+            "get 2 1", "mut 2 0 12", "get 0 0"]
+    rng.shuffle(body)
+    return mk_case([], ["-:0=%s,1=%s" % (k0, k1)], ["o", "o"], ops + body[:rng.randint(6, 12)], impl_only=impl_only)
+
+
+def post_set_case(rng):
+    """The FIRST operation on a never-read attribute with a post_setattr hook (and possibly handlers) is an assignment:
+    the default is computed once, as the old value, stored, and post_setattr'd before the new value is stored."""
+    F = [rng.choice(["f4.5", "e6", "t4"])]
+    ops = ["new 0", "new 0"]
+    if rng.random() < 0.6:
+        ops.append(rng.choice(["rd 0 0 0", "ro 0 0 1", "ra 0 1"]))
+    body = ["set 0 0 %d" % rng.randint(3, 8), "get 0 0", "get 1 0", "set 1 0 %d" % rng.randint(3, 8), "get 1 0"]
+    if rng.random() < 0.4:
+        body += ["del 0 0", "get 0 0"]
+    P = [rng.randint(1, 3)] if rng.random() < 0.25 else None
+    return mk_case(F, ["-:0=pa0,1=c3"], ["o", "o"], ops + body, P=P)
+
+
 def generate(rng, tier):
     yield from exhaustive()
     n = {"quick": 3000, "thorough": 100000}.get(tier, 30000)
@@ -618,6 +657,10 @@ def generate(rng, tier):
         yield scenario_case(rng, "B")
     for _ in range(max(40, n // 60)):
         yield post_case(rng)
+    for _ in range(max(40, n // 60)):
+        yield post_set_case(rng)
+    for _ in range(max(40, n // 60)):
+        yield legacy_case(rng)
 
 
 # ---------------------------------------------------------------------------
@@ -767,11 +810,16 @@ class Run:
             return Any({100 + i: v for i, v in enumerate(xs(code[2:]))})
         if code.startswith("fa"):
             return Any(factory=self.factory(int(code[2:])))
+        if code in ("tl", "td", "bl", "bd"):
+            from traits.api import Trait
+            ty = list if code[1] == "l" else dict
+            return ty if code[0] == "b" else Trait(ty)
         if code.startswith("pa"):
             run = self
 
             class PostAny(Any):
                 def post_setattr(self, object, name, value):
+                    getattr(object, name)        # what is stored for the attribute at this moment
                     n = run.npost
                     run.npost += 1
                     if n in run.P:
@@ -1128,6 +1176,10 @@ def member_structure(run, code, inst):
         return "inst%d" % inst
     if code[0] == "n":
         return _seq("seq" if code[2] in N_LISTY else "dict", xs(code[3:]))
+    if code in ("tl", "bl"):
+        return _seq("seq", [])
+    if code in ("td", "bd"):
+        return _seq("dict", [])
     if code.startswith("al") or code.startswith("vl"):
         return _seq("seq", xs(code[2:]))
     if code.startswith("ad") or code.startswith("vd"):
@@ -1198,7 +1250,8 @@ def kind_of(run, ci, name):
             return "inferred-%s-%s" % ({"t": "TraitType", "r": "Trait()", "e": "Either"}[code0[1]],
                                        {"l": "list", "h": "list-subclass", "m": "dict", "o": "OrderedDict",
                                         "d": "defaultdict", "c": "Counter", "u": "dict-subclass"}[code0[2]])
-        for p, l in (("al", "list-of-Any"), ("ad", "dict-of-Any"), ("fa", "factory"), ("pa", "factory"), ("vl", "list"), ("vd", "dict")):
+        for p, l in (("tl", "Trait(list)"), ("td", "Trait(dict)"), ("bl", "add_trait(list)"), ("bd", "add_trait(dict)"),
+                     ("al", "list-of-Any"), ("ad", "dict-of-Any"), ("fa", "factory"), ("pa", "factory"), ("vl", "list"), ("vd", "dict")):
             if code0.startswith(p):
                 return l
         return {"c": "constant", "L": "List", "D": "Dict", "S": "Set", "T": "Tuple", "U": "Union", "o": "Self",
